@@ -15,6 +15,7 @@ RULE = ("Sentences of the reference grammar from the typed program generator ove
         "Non-trivial = uses a keyword-prefixed identifier, a shared splitter/condition field, an identifier or tuple inside a "
         "tuple, chain>=10, nesting>=4 or >=16 groups; distinct by text.")
 RULE += (' Since round 6: the stated maxima combined (12 levels x 60-link chains on one path).')
+RULE += (' Since rounds 14-15: every documented code-generator option (indentation string x layout) for a quarter of the cases.')
 ASSUMPTIONS = [
     "identifiers that are Python reserved words or names of the generated code's helpers are excluded from the main "
     "generator (known finding K1, probed separately); `elseif` is excluded (documented regex else\\s*if reads it as a keyword)",
